@@ -22,6 +22,7 @@ NOTES = {  # seed -> (detected_by, note) overriding / complementing the logged r
  'C19-1': ('C19 (no-internal-panic)', 'missed at first; caught after a whitespace table with a short row and the column arguments c / *3 were added to the stdin and argument alphabets'),
  'C10-2': ('C10 (argv-round-trip)', 'missed at first; caught after U+00A0, U+3000, U+2028 and form feed were added to the argument alphabet'),
  'C35-2': ('C35 (inverse-gives-back-original)', 'missed at first; caught after inputs built from the encoders own escape tokens (&lt; &amp; %20 \\n ...) were added'),
+ 'C24-1': ('C24 (flag-not-dropped)', 'missed at first (value flag followed by a dash-prefixed token was outside the asserted lists); caught after the invariant "a given value flag followed by an undeclared dash-token is reported or rejected, never silently dropped" was added'),
  'C19-2': ('NOT DETECTED', 'needs a pipe constructor that fails while returning a typed-nil (pty without /dev/ptmx, or a no_pipe_net build): no such failure can be provoked from the command alphabet'),
 }
 ROOT = '/verif'
